@@ -3,12 +3,19 @@
 
   `ps_payload_preserved` (C03_PS.lean) is relative to the `TextSize` the digester reports.  Here the question is whether
   that `TextSize` is right: re-signing a script that already carries a block must keep every character of the script in
-  front of the block, the block being in whatever state (stale, truncated, its lines converted to LF).  The code removes the
-  line break in front of the marker line with a fixed width (2 bytes, UTF-16: 4) without looking at it.
+  front of the block, the block being in whatever state (stale, truncated, its lines converted to LF).
 
-    ps_text_before_block_preserved_partial   proved: when that line break is CRLF the text found is exactly the text in front
-    ps_text_before_block_preserved_full      false for the code as it is: `ps_mixed_eol_loses_text` (finding F-ps-eol): a bare LF
-                                             in front of the marker line costs the script its last character
+  Current code (after fix F-ps-eol, /repo 68f97c1: the bytes cut off in front of the marker line are compared with the CRLF
+  that ends the marker line itself):
+    ps_cut_is_line_break                     what is cut off the end of the script is nothing or exactly CR LF (in the file's encoding)
+    ps_text_before_block_preserved           = `ps_text_before_block_preserved_full`, now a theorem
+    ps_bare_lf_before_block_refused          a marker line behind a bare LF is refused ("malformed powershell signature"),
+                                             and the refusal is clean: no patch, nothing written
+    ps_block_at_start_refused                a marker line with nothing in front of it is refused (fix F8b)
+    ps_text_before_block_found               the accepting direction: CRLF in front of the marker line → exactly the text in front is found
+  Code before the fix (`DigestPSEolOrig`):
+    ps_mixed_eol_loses_text_orig             a bare LF in front of the marker line cost the script its last character (finding F-ps-eol)
+    ps_text_before_block_preserved_full_orig_false
 -/
 import Relic.Proofs.PSEol
 import Relic.Props.C03_PS
@@ -17,6 +24,9 @@ open Relic Relic.PS
 
 /-- CRLF in the file's encoding -/
 def eolBytes (u16 : Bool) : Bytes := if u16 then widen crlf else crlf
+/-- LF / CR in the file's encoding -/
+def lfBytes (u16 : Bool) : Bytes := if u16 then [10, 0] else [10]
+def crBytes (u16 : Bool) : Bytes := if u16 then [13, 0] else [13]
 
 /-- no tail of the text turns into the begin marker once the line break is appended (the standing assumption of the
     PowerShell theorems, cf. `C08.ps_digest_ignores_signature`) -/
@@ -32,18 +42,107 @@ def ps_text_before_block_preserved_full : Prop :=
     DigestPS (T ++ (firstLine st en (isUtf16 T) ++ rest)) style = .ok d →
     ∀ x ∈ T.drop d.textSize, x = 13 ∨ x = 10 ∨ x = 0
 
+/-- the same statement about the code before fix F-ps-eol -/
+def ps_text_before_block_preserved_full_orig : Prop :=
+  ∀ (T rest : Bytes) (style : Nat) (st en : Bytes) (dT d : Digest),
+    styleOf style = some (st, en) →
+    DigestPSEolOrig T style = .ok dT → dT.sigSize = 0 →
+    DigestPSEolOrig (T ++ (firstLine st en (isUtf16 T) ++ rest)) style = .ok d →
+    ∀ x ∈ T.drop d.textSize, x = 13 ∨ x = 10 ∨ x = 0
+
 theorem isUtf16_len (l : Bytes) (h : isUtf16 l = true) : 2 ≤ l.length := by
   match l with
   | [] => simp [isUtf16] at h
   | [a] => simp [isUtf16] at h
   | a :: b :: r => simp
 
-/-- **ps_text_before_block_preserved_partial.**  `text` is an unsigned script; it is followed by CRLF, the begin marker line
-    and ANY bytes (a complete block, a truncated one, one whose own lines were converted to LF, trailing text).  Digesting
-    the whole finds exactly `text` again: same text size, same hashed stream, and what is cut off in front of the marker
-    is the CRLF and nothing else.  Hence re-signing replaces `[text.length, end)` and keeps every byte of `text`
+/-- **ps_cut_is_line_break** (current code, full strength).  `T` is an unsigned script, in either encoding, of any length
+    (a stray odd byte included); it is followed by the begin-marker line and ANY bytes.  If `DigestPowershell` accepts the
+    whole, then what it cuts off the end of `T` is nothing at all, or exactly the CR LF that ends `T`: no character of the
+    script is ever lost.  (Otherwise it refuses: `ps_bare_lf_before_block_refused`, `ps_block_at_start_refused`.) -/
+theorem ps_cut_is_line_break (T rest : Bytes) (style : Nat) (st en : Bytes) (dT d : Digest)
+    (hs : styleOf style = some (st, en)) (eT : DigestPS T style = .ok dT) (h0 : dT.sigSize = 0)
+    (e : DigestPS (T ++ (firstLine st en (isUtf16 T) ++ rest)) style = .ok d) :
+    T.drop d.textSize = [] ∨
+      (T.drop d.textSize = eolBytes (isUtf16 T) ∧ d.textSize + (eolBytes (isUtf16 T)).length = T.length) := by
+  cases hu : isUtf16 T with
+  | false =>
+    rw [hu] at e
+    rcases DigestPS_cut8 T rest style st en dT d hs hu eT h0 e with h | ⟨h1, h2⟩
+    · exact Or.inl (List.drop_eq_nil_of_le h)
+    · exact Or.inr ⟨h2, by simp only [eolBytes, Bool.false_eq_true, if_false]; exact h1⟩
+  | true =>
+    rw [hu] at e
+    rcases DigestPS_cut16 T rest style st en dT d hs hu eT h0 e with h | ⟨h1, h2⟩
+    · exact Or.inl (List.drop_eq_nil_of_le h)
+    · exact Or.inr ⟨h2, by simp only [eolBytes, if_true]; exact h1⟩
+
+/-- **ps_text_before_block_preserved**: the full statement holds for the current code -/
+theorem ps_text_before_block_preserved : ps_text_before_block_preserved_full := by
+  intro T rest style st en dT d hs eT h0 e x hx
+  rcases ps_cut_is_line_break T rest style st en dT d hs eT h0 e with h | ⟨h, _⟩
+  · rw [h] at hx; cases hx
+  · rw [h] at hx
+    cases hu : isUtf16 T
+    · rw [hu] at hx
+      simp only [eolBytes, Bool.false_eq_true, if_false, crlf, List.mem_cons, List.not_mem_nil, or_false] at hx
+      rcases hx with h | h <;> simp [h]
+    · rw [hu] at hx
+      simp only [eolBytes, if_true, crlf, widen, List.flatMap_cons, List.flatMap_nil, List.cons_append, List.nil_append,
+        List.mem_cons, List.not_mem_nil, or_false] at hx
+      rcases hx with h | h | h | h <;> simp [h]
+
+/-- **ps_bare_lf_before_block_refused** (current code).  `T0 ++ LF` is an unsigned script whose last line break is a bare
+    LF (`T0` does not end with CR; for UTF-16LE, `T0` is aligned); it is followed by the begin-marker line and anything.
+    `DigestPowershell` refuses ("malformed powershell signature"), and the refusal is clean: the signing round has no patch
+    to apply, nothing is written. -/
+theorem ps_bare_lf_before_block_refused (T0 rest sig : Bytes) (style : Nat) (st en : Bytes) (dT : Digest)
+    (hs : styleOf style = some (st, en))
+    (eT : DigestPS (T0 ++ lfBytes (isUtf16 T0)) style = .ok dT) (h0 : dT.sigSize = 0)
+    (hu2 : isUtf16 T0 = true → T0.length % 2 = 0) (hcr : ¬ crBytes (isUtf16 T0) <:+ T0) :
+    DigestPS (T0 ++ lfBytes (isUtf16 T0) ++ (firstLine st en (isUtf16 T0) ++ rest)) style = .err "badsig" ∧
+    C08.psSignRound style (T0 ++ lfBytes (isUtf16 T0) ++ (firstLine st en (isUtf16 T0) ++ rest)) sig = .err "badsig" := by
+  have key : DigestPS (T0 ++ lfBytes (isUtf16 T0) ++ (firstLine st en (isUtf16 T0) ++ rest)) style = .err "badsig" := by
+    cases hu : isUtf16 T0 with
+    | false =>
+      rw [hu] at eT hcr
+      simp only [lfBytes, crBytes, Bool.false_eq_true, if_false] at eT hcr ⊢
+      have hu' : isUtf16 (T0 ++ [10]) = false := by
+        rw [isUtf16_eq] at hu ⊢
+        match T0, hu with
+        | [], _ => simp
+        | [a], _ => simp
+        | a :: b :: r, hu => simpa using hu
+      exact DigestPS_bare_lf8 T0 rest style st en dT hs hu' eT h0 hcr
+    | true =>
+      rw [hu] at eT hcr
+      simp only [lfBytes, crBytes, if_true] at eT hcr ⊢
+      have hu' : isUtf16 (T0 ++ [10, 0]) = true := by
+        rw [isUtf16_eq] at hu ⊢
+        match T0, hu with
+        | [], hu => simp at hu
+        | [a], hu => simp at hu
+        | a :: b :: r, hu => simpa using hu
+      exact DigestPS_bare_lf16 T0 rest style st en dT hs hu' (hu2 hu) eT h0 hcr
+  refine ⟨key, ?_⟩
+  unfold C08.psSignRound
+  rw [key]
+
+/-- **ps_block_at_start_refused** (fix F8b).  A begin-marker line with nothing in front of it is refused, whatever follows. -/
+theorem ps_block_at_start_refused (rest sig : Bytes) (style : Nat) (st en : Bytes) (hs : styleOf style = some (st, en)) :
+    DigestPS (firstLine st en false ++ rest) style = .err "badsig" ∧
+    C08.psSignRound style (firstLine st en false ++ rest) sig = .err "badsig" := by
+  have key := DigestPS_marker_first8 rest style st en hs
+  refine ⟨key, ?_⟩
+  unfold C08.psSignRound
+  rw [key]
+
+/-- **ps_text_before_block_found** (the accepting direction).  `text` is an unsigned script; it is followed by CRLF, the begin
+    marker line and ANY bytes (a complete block, a truncated one, one whose own lines were converted to LF, trailing text).
+    Digesting the whole finds exactly `text` again: same text size, same hashed stream, and what is cut off in front of the
+    marker is the CRLF and nothing else.  Hence re-signing replaces `[text.length, end)` and keeps every byte of `text`
     (`ps_payload_preserved`). -/
-theorem ps_text_before_block_preserved_partial (text rest : Bytes) (style : Nat) (st en : Bytes) (dT : Digest)
+theorem ps_text_before_block_found (text rest : Bytes) (style : Nat) (st en : Bytes) (dT : Digest)
     (hs : styleOf style = some (st, en)) (e : DigestPS text style = .ok dT) (h0 : dT.sigSize = 0)
     (nf : NoFalseMarker st en (isUtf16 text) text) (ev : isUtf16 text = true → text.length % 2 = 0) :
     ∃ d, DigestPS (text ++ (eolBytes (isUtf16 text) ++ (firstLine st en (isUtf16 text) ++ rest))) style = .ok d ∧
@@ -76,24 +175,58 @@ example : (match DigestPS (ascii "exit 0" ++ (crlf ++ (firstLine (ascii "# ") []
     | .ok d => d.textSize == 6 && d.sigSize == 68
     | _ => false) = true := by decide
 
+/-- `ps_cut_is_line_break`, both alternatives on concrete scripts: "exit 0\r\n" + marker (CR LF cut off: text size 6 of 8),
+    and "exit 0" + marker line directly behind it (no line start: not a marker, nothing cut off) -/
+example : DigestPS (ascii "exit 0\r\n") 1 = .ok ⟨widen (ascii "exit 0\r\n"), 8, 0, false, 1⟩ ∧
+    (match DigestPS (ascii "exit 0\r\n" ++ (firstLine (ascii "# ") [] false ++ [])) 1 with
+      | .ok d => d.textSize == 6 | _ => false) = true ∧
+    (match DigestPS (ascii "exit 0" ++ (firstLine (ascii "# ") [] false ++ [])) 1 with
+      | .ok d => d.textSize == 37 && d.sigSize == 0 | _ => false) = true := by decide
+
 /-- a script with LF line endings whose block was written / kept with CRLF: "a", LF, then a CRLF block -/
 def mixedEol : Bytes := ascii "a\n" ++ (firstLine (ascii "# ") [] false ++ lastLine (ascii "# ") [] false)
 
-/-- **ps_mixed_eol_loses_text (finding F-ps-eol).**  `a\n` alone is an unsigned two-byte script.  Followed by a block whose
-    marker line ends in CRLF, the digester removes two bytes in front of the marker: the LF *and the character `a`*.
-    `TextSize` is 0, so signing replaces the whole file by the new block and nothing else: the script text is gone, and the verifier agrees
-    with the digest of the empty text. -/
-theorem ps_mixed_eol_loses_text :
+/-- **ps_mixed_eol_refused** (current code): the witness of finding F-ps-eol is refused, and so is the signing round.
+    (Instance of `ps_bare_lf_before_block_refused` with `T0 = "a"`; hypotheses satisfiable: `"a\n"` is an unsigned script.) -/
+theorem ps_mixed_eol_refused :
     DigestPS (ascii "a\n") 1 = .ok ⟨widen (ascii "a\n"), 2, 0, false, 1⟩ ∧
-    DigestPS mixedEol 1 = .ok ⟨[], 0, 62, false, 1⟩ ∧
-    C08.psSignRound 1 mixedEol [0x37] = .ok (block (ascii "# ") [] false [0x37]) := by
+    DigestPS mixedEol 1 = .err "badsig" ∧ C08.psSignRound 1 mixedEol [0x37] = .err "badsig" := by
   decide
 
-/-- the full statement does not hold for the code as it is -/
-theorem ps_text_before_block_preserved_full_false : ¬ ps_text_before_block_preserved_full := by
+/-- the same on a UTF-16LE script: BOM, "a", U+000A, then the marker line and end line -/
+example : DigestPS ([0xff, 0xfe] ++ widen (ascii "a\n") ++ (firstLine (ascii "# ") [] true ++ lastLine (ascii "# ") [] true)) 1 =
+    .err "badsig" := by decide
+
+/-! ### the code before fix F-ps-eol -/
+
+/-- one signing round with the digester as it was before the fix -/
+def psSignRoundEolOrig (style : Nat) (f sig : Bytes) : Res Bytes :=
+  match DigestPSEolOrig f style with
+  | .ok d => match makePatch d sig with
+    | .ok ps => .ok (Binpatch.sem f ps)
+    | .err e => .err e
+    | .panic p => .panic p
+    | .diverge => .diverge
+  | .err e => .err e
+  | .panic p => .panic p
+  | .diverge => .diverge
+
+/-- **ps_mixed_eol_loses_text_orig (finding F-ps-eol, fixed in /repo 68f97c1).**  About the code BEFORE the fix: `a\n` alone is
+    an unsigned two-byte script.  Followed by a block whose marker line ends in CRLF, the digester removed two bytes in front
+    of the marker without looking at them: the LF *and the character `a`*.  `TextSize` was 0, so signing replaced the whole
+    file by the new block and nothing else: the script text was gone, and the verifier agreed with the digest of the empty
+    text. -/
+theorem ps_mixed_eol_loses_text_orig :
+    DigestPSEolOrig (ascii "a\n") 1 = .ok ⟨widen (ascii "a\n"), 2, 0, false, 1⟩ ∧
+    DigestPSEolOrig mixedEol 1 = .ok ⟨[], 0, 62, false, 1⟩ ∧
+    psSignRoundEolOrig 1 mixedEol [0x37] = .ok (block (ascii "# ") [] false [0x37]) := by
+  decide
+
+/-- the full statement did not hold for the code before the fix -/
+theorem ps_text_before_block_preserved_full_orig_false : ¬ ps_text_before_block_preserved_full_orig := by
   intro h
   have := h (ascii "a\n") (lastLine (ascii "# ") [] false) 1 (ascii "# ") [] ⟨widen (ascii "a\n"), 2, 0, false, 1⟩ ⟨[], 0, 62, false, 1⟩
-    rfl ps_mixed_eol_loses_text.1 rfl ps_mixed_eol_loses_text.2.1 97 (by decide)
+    rfl ps_mixed_eol_loses_text_orig.1 rfl ps_mixed_eol_loses_text_orig.2.1 97 (by decide)
   revert this
   decide
 
